@@ -294,6 +294,9 @@ arena& arena::allocate_arena(threading_control* control, unsigned num_slots, uns
 }
 
 void arena::free_arena () {
+#if ONETBB_VERIF_SIM
+    sim_tso_region(reinterpret_cast<unsigned char*>(this) - my_num_slots * sizeof(mail_outbox), allocation_size(my_num_slots), 0);
+#endif
     __TBB_ASSERT( is_alive(my_guard), nullptr);
     __TBB_ASSERT( !my_references.load(std::memory_order_relaxed), "There are threads in the dying arena" );
     __TBB_ASSERT( !my_total_num_workers_requested && !my_num_workers_allotted, "Dying arena requests workers" );
@@ -448,6 +451,10 @@ arena& arena::create(threading_control* control, unsigned num_slots, unsigned nu
     __TBB_ASSERT(num_reserved_slots <= num_slots, NULL);
     // Add public market reference for an external thread/task_arena (that adds an internal reference in exchange).
     arena& a = arena::allocate_arena(control, num_slots, num_reserved_slots, arena_priority_level);
+#if ONETBB_VERIF_SIM
+    // verification hook: the arena block (slots, mailboxes, pool state) becomes a store-buffer (TSO) region
+    sim_tso_region(reinterpret_cast<unsigned char*>(&a) - a.my_num_slots * sizeof(mail_outbox), allocation_size(a.my_num_slots), 1);
+#endif
     a.my_tc_client = control->create_client(a);
     // We should not publish arena until all fields are initialized
     control->publish_client(a.my_tc_client, constraints);
